@@ -22,9 +22,35 @@ func checkC14(c *Check) {
 		c.Undecided("1/container-open", "container.handleOpen", "-", "function not found")
 	} else {
 		key := "container.handleOpen"
+		// the function that holds the per-item loop: the handler itself, or a helper of the package it passes the
+		// request list to (the loop split off the handler)
+		hasOpen := func(f *ssa.Function) bool {
+			for _, ci := range callInstrs(f) {
+				if n, _ := calleeOf(ci); n == "os.OpenFile" {
+					return true
+				}
+			}
+			return false
+		}
+		if !hasOpen(ho) {
+			for _, ci := range callInstrsDeep(ho, 2) {
+				if callee := ci.Common().StaticCallee(); callee != nil && inModule(callee) && callee.Pkg == ho.Pkg && hasOpen(callee) {
+					ho = callee
+				}
+			}
+		}
 		pos := p.Pos(ho.Pos())
 		cd := controlDeps(ho)
-		req := ho.Params[1]
+		var req *ssa.Parameter
+		for _, pr := range ho.Params {
+			if strings.HasSuffix(pr.Type().String(), "container.OpenCmd") && strings.HasPrefix(pr.Type().String(), "[]") {
+				req = pr
+			}
+		}
+		if req == nil {
+			c.Undecided("1/container-open", key+":request-list", pos, "cannot find the request-list parameter of the function that opens the files")
+			return
+		}
 		// the three slices
 		var errSlice *ssa.MakeSlice
 		for _, b := range ho.Blocks {
